@@ -7,6 +7,7 @@ from ..nf import Rat, C
 from ..source import Unsupported, AnchorError
 from ..xlate import Interp, Frame, Obj, ListV, DictV, Raised, RankOrder
 from .common import same, show, coeff_vector
+from .rxnfix import get_public
 
 OM = 'pmutt.io.omkm'
 Z = '\x00'
@@ -14,7 +15,6 @@ Z = '\x00'
 
 def new_interp(repo, **kw):
     I = Interp(repo, **kw)
-    I.opaque_funcs['pmutt.io._get_file_timestamp'] = lambda I_, fr, a, k, n: '# generated by pMuTT'
     I.dumps = []
 
     def dump(I_, fr, args, kwargs, n):
@@ -38,11 +38,13 @@ def units_obj(I, repo):
 
 # ----------------------------------------------------------------------
 def assign_yaml(run, repo):
-    m = repo.module('pmutt.omkm')
-    fn = m.functions.get('_assign_yaml_val')
+    """every kind of value a user may pass for a reactor option, through the public write_yaml: with a unit
+    (flow_rate -> inlet_gas/flow_rate in cm3/s) and without (nodes -> reactor/nodes).  Which private helper places
+    the value is the module's own business."""
+    m = repo.module(OM)
+    fn = m.functions.get('write_yaml')
     if fn is None:
-        raise AnchorError('pmutt.omkm._assign_yaml_val not found')
-    run.fn('pmutt.omkm._assign_yaml_val')
+        raise AnchorError(OM + '.write_yaml not found')
     kinds = {
         'python number': lambda I: I.D.sym('v'),
         'NumPy number (np.int64 / np.float32)': lambda I: numpy_scalar(),
@@ -52,45 +54,46 @@ def assign_yaml(run, repo):
         'dictionary': lambda I: DictV({'a': I.D.sym('v')}),
         'boolean': lambda I: True,
     }
+
+    def written(I, kw, path, lab):
+        r = I.call_function(m, fn, [], dict(kw, phases=DictV()))
+        if isinstance(r, Raised):
+            return r, None
+        cur = I.dumps[-1] if I.dumps else None
+        for p_ in path:
+            cur = cur.d.get(p_) if isinstance(cur, DictV) else None
+        return r, (cur.d.get(lab) if isinstance(cur, DictV) else None)
+
     for kname, mk in kinds.items():
         for unit in (None, '_length3/_time'):
             if kname in ('dictionary', 'boolean', 'string') and unit is not None:
                 continue        # such options never carry a unit in the writers
-            I = new_interp(repo)
+            # a test on the value itself is followed for a generic non-zero number
+            I = new_interp(repo, order=RankOrder({'v': 1, 'v0': 1, 'v1': 1}, const_ranks=True))
             u = units_obj(I, repo)
-            fr = Frame(I, m, {}, None, None)
-            maker = fr.entity(I.repo.lookup(m, '_Param'), None)
             val = mk(I)
-            param = fr.apply(maker, ['label', val, unit], {}, None)
-            header = DictV({'other': 'x'})
-            r = I.call_function(m, fn, [], {'param': param, 'header': header, 'units': u})
+            opt, path, lab = ('flow_rate', ('inlet_gas',), 'flow_rate') if unit else ('nodes', ('reactor',), 'nodes')
+            r, got = written(I, {opt: val, 'units': u}, path, lab)
             key = 'value=%s units=%s' % (kname, 'given' if unit else 'None')
-            written = 'label' in header.d
-            run.check(written or isinstance(r, Raised), 'PATH.assign', 'omkm._assign_yaml_val', key,
-                      'a supplied %s %s is neither written under its label nor rejected: the option silently '
-                      'disappears from the reactor file' % (kname, 'with unit %r' % unit if unit else 'without unit'),
-                      m, fn, sample='_assign_yaml_val(%s) -> %s' % (key, show(header.d.get('label'), 60)))
-            if written and isinstance(val, Rat) and unit:
-                got = I.seg(header.d['label'])
-                ok = [s.value for s in got.fields() if isinstance(s.value, Rat)] == [val] and \
-                    'cm3/s' in ''.join(s.text for s in got.segs if s.kind == 'lit')
-                run.check(ok, 'DATAFLOW.unit', 'omkm._assign_yaml_val', key,
+            run.check(got is not None or isinstance(r, Raised), 'PATH.assign', 'io.omkm.write_yaml', key,
+                      'a supplied %s %s (%s=...) is neither written under its label nor rejected: the option silently '
+                      'disappears from the reactor file' % (kname, 'with unit %r' % unit if unit else 'without unit',
+                                                            opt),
+                      m, fn, sample='write_yaml(%s: %s) -> %s' % (opt, key, show(got, 60)))
+            if got is not None and isinstance(val, Rat) and unit:
+                sg = I.seg(got)
+                ok = [s_.value for s_ in sg.fields() if isinstance(s_.value, Rat)] == [val] and \
+                    'cm3/s' in ''.join(s_.text for s_ in sg.segs if s_.kind == 'lit')
+                run.check(ok, 'DATAFLOW.unit', 'io.omkm.write_yaml', key,
                           'a number with unit template %r is written as %s, expected "<value> cm3/s" for the default '
-                          'unit system' % (unit, show(got, 80)), m, fn)
-    # nothing is written for None or for a label already present
-    I = new_interp(repo)
-    fr = Frame(I, m, {}, None, None)
-    maker = fr.entity(I.repo.lookup(m, '_Param'), None)
-    header = DictV({'label': 'user value'})
-    I.call_function(m, fn, [], {'param': fr.apply(maker, ['label', I.D.sym('v'), None], {}, None), 'header': header,
-                                'units': None})
-    run.check(header.d['label'] == 'user value', 'PATH.assign', 'omkm._assign_yaml_val', 'label already present',
-              'a value the user put in the section dictionary is overwritten', m, fn)
-    header = DictV()
-    I.call_function(m, fn, [], {'param': fr.apply(maker, ['label', None, '_time'], {}, None), 'header': header,
-                                'units': None})
-    run.check(not header.d, 'PATH.assign', 'omkm._assign_yaml_val', 'omitted option',
-              'an omitted option (None) appears in the file', m, fn)
+                          'unit system' % (unit, show(sg, 80)), m, fn)
+    # a value the user already put into the section dictionary wins over the keyword
+    I = new_interp(repo, order=RankOrder({'v': 1}, const_ranks=True))
+    u = units_obj(I, repo)
+    r, got = written(I, {'nodes': I.D.sym('v'), 'reactor': DictV({'nodes': 'user value'}), 'units': u},
+                     ('reactor',), 'nodes')
+    run.check(got == 'user value', 'PATH.assign', 'io.omkm.write_yaml', 'label already present',
+              'a value the user put in the section dictionary is overwritten (now %s)' % show(got, 60), m, fn)
 
 
 # ----------------------------------------------------------------------
@@ -299,7 +302,7 @@ def phases_independent(run, repo):
         owner, fn = repo.find_method(ci, '__init__')
         run.fn(owner.qual + '.__init__')
         r = I.call_method(p1, 'append_species', [], {'val': sp})
-        l2 = p2.attrs.get('_species')
+        l2 = get_public(I, p2, 'species')
         cname = qual.split('.')[-2] + '.' + ci.name
         run.check(isinstance(l2, ListV) and len(l2) == 0, 'EFFECT.shared-default', cname + '.__init__',
                   'species default',
@@ -322,7 +325,7 @@ def phases_independent(run, repo):
                     I.call_method(p, 'append_species', [], {'val': b})
                 else:
                     I.call_method(p, 'extend_species', [], {'val': ListV([a, b])})
-            names = I.call_method(p, 'species_names', [], {}) if False else p.attrs.get('_species')
+            names = get_public(I, p, 'species')
             ok = isinstance(names, ListV) and [x for x in names.items] == [a, b] and a.attrs.get('phase') is p \
                 and b.attrs.get('phase') is p
             o2, f2 = repo.find_method(ci, how if how in ('append_species', 'extend_species') else
@@ -363,7 +366,7 @@ def check(run, repo):
 
 O_ = 'pmutt/io/omkm.py'
 MUTANTS = [
-    {'name': 'only int/float get units again', 'expect': ('PATH.assign', '_assign_yaml_val'),
+    {'name': 'only int/float get units again', 'expect': ('PATH.assign', 'write_yaml'),
      'edits': [('pmutt/omkm/__init__.py', '    if isinstance(param.val, numbers.Number):', '    if isinstance(param.val, (int, float)):'),
                ('pmutt/omkm/__init__.py', "    else:\n        err_msg = ('Unable to write {} ({}) with units. Expected a number, a '", "    elif False:\n        err_msg = ('Unable to write {} ({}) with units. Expected a number, a '")]},
     {'name': 'volume written with the area unit', 'expect': ('DATAFLOW.reactor', 'write_yaml'),
